@@ -382,7 +382,7 @@ func (c *Ctx) Finish() {
 	if len(c.Inconclusive) > 0 {
 		cov["inconclusive_because"] = c.Inconclusive
 	}
-	if c.Evals < 1 || dn < 2 {
+	if c.nviol == 0 && (c.Evals < 1 || dn < 2) {
 		verdict, code = "inconclusive", ExitInconclusive
 		cov["inconclusive_because"] = append(c.Inconclusive, "nothing observed")
 	}
